@@ -2,6 +2,8 @@
 (* C11, leg M: an abstract model of the parser DESIGN (kernel/device/acpi/aml/parser.go), namespace *)
 (* half.  The tree stores a scoped object as  object -> anonymous scope block -> children;  a table  *)
 (* is parsed in passes:                                                                             *)
+(*   (the units of a BankField are created in the later deferred pass, next to the BankField where it  *)
+(*   is THEN; that is the same place, so the model creates them in pass 1 like those of Field)         *)
 (*   1. Build: one flat pass creates the objects where they are written (Scope directives and       *)
 (*      prefixed / multi-segment names stay as written; field units are put next to their Field;     *)
 (*      the invocations of a method body are flat children of the method's block),                   *)
@@ -59,8 +61,9 @@ Find(T, scope, f) ==
   ELSE IF Len(f.segs) > 1 THEN FindRel(T, scope, f.segs)
   ELSE IF Len(f.segs) = 1 THEN FindUp(T, scope, f.segs[1])
   ELSE Nil
-\* a complete name string: one that ends in the null name is read as the empty string, which Find rejects
-FindName(T, scope, f) == IF f.segs = <<>> THEN Nil ELSE Find(T, scope, f)
+\* a complete name string (target of a Scope directive): a prefix followed by the null name keeps the prefix
+\* (repaired in /repo a260b8c; before, it was read as the empty string, which Find rejects - finding D8)
+FindName(T, scope, f) == IF f.segs = <<>> /\ ~f.abs /\ f.carets = 0 THEN Nil ELSE Find(T, scope, f)
 RECURSIVE CNA(_, _)                           \* ClosestNamedAncestor, starting at the parent
 CNA(T, n) == IF n = Nil THEN Nil ELSE IF T[n].op = "scopedir" THEN Nil
              ELSE IF T[n].op \in {"block", "obj"} THEN n ELSE CNA(T, T[n].par)
@@ -73,7 +76,7 @@ RECURSIVE ImplUnits(_, _, _, _, _, _)
 ImplUnits(t, i, off, at, aa, bug) ==
   IF i > Len(t.els) THEN <<>>
   ELSE LET e == t.els[i] IN
-       CASE e.e = "unit"   -> <<[name |-> e.name, args |-> <<[t |-> "unit", f |-> t.f,
+       CASE e.e = "unit"   -> <<[name |-> e.name, args |-> <<[t |-> "unit", s |-> t.kind, a |-> FieldArgs(t),
                                    n |-> <<off, e.bits, at, aa, (t.flags \div 16) % 2, (t.flags \div 32) % 4>>]>>]>>
                               \o ImplUnits(t, i + 1, IF bug = "UnitsNotAccumulated" THEN off ELSE off + e.bits, at, aa, bug)
          [] e.e = "skip"   -> ImplUnits(t, i + 1, off + e.bits, at, aa, bug)
